@@ -56,7 +56,9 @@ def tables(ctx, u):
             out[name] = ({t: s.cls for t, s in ev_tab.items() if t in SPEC}, ev_tab["x"].cls, A.where(u.function(name)), ev_tab)
     try:
         tab, dflt, guard, sw, fn = T.arg_size_table(u)
-        out["arg_size"] = ({t: C.classify(s.items) for t, s in tab.items()}, ("none" if guard else "unguarded"), A.where(sw), tab)
+        # tags outside the switch take no payload when an entry guard says so or when the default case returns 0
+        dflt_none = guard or (dflt is not None and isinstance(dflt.ret, int) and dflt.ret == 0 and not dflt.items)
+        out["arg_size"] = ({t: C.classify(s.items) for t, s in tab.items()}, ("none" if dflt_none else "unguarded"), A.where(sw), tab)
     except AnalysisBroken as e:
         ctx.notes.append("arg_size: no tag table by shape (%s)" % e)
     try:
